@@ -58,7 +58,8 @@ Dup(i, j) == Act /\ i \in 1..Len(wire) /\ j \in i..Len(wire) /\ Whole(i) /\ wire
 Swap(i) == /\ Act /\ i \in 1..(Len(wire) - 1)
            /\ wire' = [wire EXCEPT ![i] = wire[i + 1], ![i + 1] = wire[i]]
 \* Truncate(i, how): the stream ends before record i ("boundary"), inside its header or inside its body
-Truncate(i, how) == /\ Act /\ i \in 1..Len(wire) /\ Whole(i)
+\* (only a record of the sender: a shortened forged record is just another forged record)
+Truncate(i, how) == /\ Act /\ i \in 1..Len(wire) /\ Whole(i) /\ wire[i].inj = "none"
                     /\ wire' = IF how = "boundary" THEN SubSeq(wire, 1, i - 1)
                                ELSE [SubSeq(wire, 1, i) EXCEPT ![i].part = how]
 Inject(j, k) == Act /\ j \in 0..Len(wire) /\ wire' = InsertAt(wire, j, Forged(k))
